@@ -427,7 +427,8 @@ partial def exec (x : XState) (args : List String) : XState × String :=
       | a :: b :: rest => a < b && asc (b :: rest)
       | _ => true
     if !asc vs then (x, "err-add") else
-    (x, match V2.findPrevious vs v.toNat! with | none => "-1" | some c => toString c)
+    (x, (match V2.findPrevious vs v.toNat! with | none => "-1" | some c => toString c) ++ " " ++
+        (match V2.find vs v.toNat! with | none => "-1" | some c => toString c))
   | "vex" :: _ => (x, icsVerify args)
   | "vnon" :: _ => (x, icsVerify args)
   | ["adopt"] =>
